@@ -223,5 +223,11 @@ VP_HARNESS(h_seed_wf)
   unsigned long tf = SEED == 4 ? HWLOC_TOPOLOGY_FLAG_INCLUDE_DISALLOWED : 0;
   struct hwloc_topology *t = vp_seed_build(SEED, tf);
   vp_wf_check(t, tf);
+#if SEED == 6
+  VP_CHECK(t->nb_levels == 5 && t->level_nbobjects[1] == 3 && t->levels[2][0]->type == HWLOC_OBJ_L2CACHE && t->level_nbobjects[2] == 2 && t->levels[3][0]->type == HWLOC_OBJ_CORE && t->level_nbobjects[3] == 2 && t->level_nbobjects[4] == 3, "S6: levels of equal width that are not pairwise parent and child are not merged");
+#endif
+#if SEED == 7
+  VP_CHECK(t->nb_levels == 3 && t->levels[1][0]->type == HWLOC_OBJ_CORE && t->level_nbobjects[1] == 2 && t->levels[1][0]->memory_arity == 1 && t->levels[1][1]->memory_arity == 1, "S7: a KEEP_STRUCTURE level that brings no structure is merged away and its memory children move to the kept objects");
+#endif
   VP_WITNESS("seed checked");
 }
